@@ -127,6 +127,7 @@ C11_RULE = (
     "thread hop), restarted, dropped mid-iteration, built from a map that is dropped right away: C15/C02 engines natively "
     "with allocator poisoning (stale reads become wrong values) and under Miri (Tree Borrows). (3) slider-heavy texts with "
     "malformed path tokens and very long paths decoded through byte-wise readers natively with poisoning and under Miri. "
+    "(4) the builder histories of C18 (Difficulty::clock_rate stores a NonZeroU64 made with new_unchecked). "
     "Distinct = distinct op-kind sequences / fault lists over all parts."
 )
 
@@ -149,6 +150,9 @@ def run_c11(tier):
         dict(engine="c15", quick=300000, thorough=4000000, build="default", env={"VERIF_ALLOC_JUNK": "165"}, prefix="C11/native-poison/"),
         dict(engine="c11c", quick=100000, thorough=1500000, build="default", env={"VERIF_ALLOC_JUNK": "165"}, prefix="C11/native-poison/"),
         dict(engine="c02", quick=100000, thorough=1500000, build="default", env={"VERIF_ALLOC_JUNK": "165"}, prefix="C11/native-poison/"),
+        # Difficulty::clock_rate keeps its value in a NonZeroU64 built with new_unchecked: the builder histories
+        # (incl. raw writes into InspectDifficulty) exercise that unsafe site; debug assertions turn a zero into an abort
+        dict(engine="c18", quick=150000, thorough=2000000, build="default", prefix="C11/builder-unsafe/"),
     ]
     sums, vios = _native("C11", parts, tier)
     plan = [
@@ -157,6 +161,7 @@ def run_c11(tier):
         ("consume", "", 16, 96, 4, 0.0),
         ("life02", "", 8, 48, 2, 0.0),
         ("sliders", "", 16, 96, 12, 0.0),
+        ("builder", "", 8, 48, 6, 0.0),
     ]
     msums, mvios, mstats = M.run("C11", _miri_jobs(plan, tier))
     return _finish("C11", tier, t0, sums, vios, msums, mvios, mstats, C11_RULE,
